@@ -35,3 +35,26 @@ def replay(ur, scratch, seed):
     exe = N.build_driver("native/spaces_native.cpp", scratch, link_ompl=True, unit_cpps=SP_CPPS)
     r = C.run_cmd([exe, "search", str(seed), "400000", "c06"], 600, env=N.run_env())
     return dict(found=(r["rc"] == 1), driver="native/spaces_native.cpp", args=["search", seed, 400000, "c06"], link_ompl=True, unit_cpps=SP_CPPS, output=r["out"][-2500:])
+
+# ---------------------------------------------------------------- small functions the metric laws of composite spaces rest on
+SSF = "src/ompl/base/src/StateSpace.cpp"
+M_RULES = [
+    (r"throw Exception\(\"[^\"]*\"\);", "{ thrown = 1; return; }", 0), (r"space_->getMaximumExtent\(\)", "WRAPPED_EXTENT()", 0),
+    (r"BOOST_ASSERT_MSG\(.*?\);", "", 0, __import__("re").S), (r"arcLength\(state1, state2\)", "ARCLENGTH()", 0), (r"std::numeric_limits<double>::epsilon\(\)", "DBL_EPSILON", 0),
+]
+M_SRC = [
+    dict(name="setSubspaceWeight", file=SSF, sig=r"void ompl::base::CompoundStateSpace::setSubspaceWeight\(const unsigned int index, double weight\)", rules=M_RULES, loops={}),
+    dict(name="wrapper_extent", file="src/ompl/base/spaces/WrapperStateSpace.h", sig=r"double getMaximumExtent\(\) const override", rules=M_RULES, loops={}),
+    dict(name="so3_distance", file="src/ompl/base/spaces/src/SO3StateSpace.cpp", sig=r"double ompl::base::SO3StateSpace::distance\(const State \*state1, const State \*state2\) const", rules=M_RULES, loops={}),
+    dict(name="so3_equalStates", file="src/ompl/base/spaces/src/SO3StateSpace.cpp", sig=r"bool ompl::base::SO3StateSpace::equalStates\(const State \*state1, const State \*state2\) const", rules=M_RULES, loops={}),
+]
+for nm, ent, fn, can in (("c06_compound_setSubspaceWeight", "h_setSubspaceWeight", ["CompoundStateSpace::setSubspaceWeight"], [dict(name="tests_the_old_weight", where="body:setSubspaceWeight", rx=r"if \(weight < 0\.0\)", repl="if (index < NW && weights_[index] < 0.0)")]),
+                         ("c06_wrapper_getMaximumExtent", "h_wrapper_extent", ["WrapperStateSpace::getMaximumExtent"], [dict(name="returns_a_cached_value", where="body:wrapper_extent", rx=r"return WRAPPED_EXTENT\(\);", repl="static double cached_; return cached_;")]),
+                         ("c06_so3_equal_vs_distance", "h_so3_equal", ["SO3StateSpace::distance", "SO3StateSpace::equalStates"], [dict(name="equality_by_components", where="body:so3_equalStates", rx=r"return ARCLENGTH\(\) < DBL_EPSILON;", repl="ARCLENGTH(); return 0;")])):
+    UNITS.append(dict(name=nm, template="spaces/c06_misc.c", mode="plain", entry=ent, flags=["--bounds-check", "--pointer-check"], level="proof", backend="cadical", timeout=300, functions=fn, sources=M_SRC, canaries=can))
+# Mobius: the unit of C07 (distance and interpolate agree on the branch) plus symmetry of the branch choice
+import importlib.util as _iu, os as _os, copy as _copy
+_s7 = _iu.spec_from_file_location("c07", _os.path.join(_os.path.dirname(__file__), "C07.py")); _C07 = _iu.module_from_spec(_s7); _s7.loader.exec_module(_C07)
+for u in _C07.UNITS:
+    if u["name"] == "c07_mobius_seam_branch":
+        v = _copy.deepcopy(u); v["name"] = "c06_mobius_seam_branch"; UNITS.append(v)
